@@ -1,7 +1,82 @@
 package main
 
-// tryReplay attempts to reproduce a solver counterexample on the real code. Returns true when the
-// real code violated the clause on the model's inputs.
+import (
+	"context"
+	"encoding/json"
+	"fmt"
+	"os"
+	"os/exec"
+	"path/filepath"
+	"regexp"
+	"strings"
+	"time"
+)
+
+// A replay harness is a Go test kept under /verif/replay that is injected into the package of the failed
+// function with `go test -overlay` (nothing is written under /repo). It receives the solver's model (if any)
+// in VERIF_REPLAY_MODEL and must FAIL exactly when the real code violates the clause.
+type replayEntry struct {
+	Obligation string `json:"obligation"` // regexp on the obligation name
+	Harness    string `json:"harness"`    // file under /verif/replay
+	Pkg        string `json:"pkg"`        // package dir relative to /repo
+	Test       string `json:"test"`       // test name
+}
+
+func loadReplayIndex(verif string) []replayEntry {
+	b, err := os.ReadFile(filepath.Join(verif, "replay", "index.json"))
+	if err != nil {
+		return nil
+	}
+	var es []replayEntry
+	json.Unmarshal(b, &es)
+	return es
+}
+
+// tryReplay attempts to reproduce a failed obligation on the real code. Returns true when the real code
+// violated the clause (the harness test failed); the harness output is added to the replay file.
 func tryReplay(eng *Engine, verif, repo string, o *Obligation, model map[string]string, replayPath string) bool {
+	for _, e := range loadReplayIndex(verif) {
+		re, err := regexp.Compile(e.Obligation)
+		if err != nil || !re.MatchString(o.Name) {
+			continue
+		}
+		tmp, err := os.MkdirTemp("", "govc-replay")
+		if err != nil {
+			return false
+		}
+		defer os.RemoveAll(tmp)
+		ov := map[string]map[string]string{"Replace": {filepath.Join(repo, e.Pkg, "zz_verif_replay_test.go"): filepath.Join(verif, "replay", e.Harness)}}
+		ob, _ := json.Marshal(ov)
+		ovPath := filepath.Join(tmp, "ov.json")
+		os.WriteFile(ovPath, ob, 0o644)
+		ctx, cancel := context.WithTimeout(context.Background(), 300*time.Second)
+		defer cancel()
+		cmd := exec.CommandContext(ctx, "go", "test", "-overlay", ovPath, "-vet=off", "-count=1", "-timeout", "120s", "-run", "^"+e.Test+"$", "./"+e.Pkg+"/")
+		cmd.Dir = repo
+		mb, _ := json.Marshal(model)
+		cmd.Env = append(os.Environ(), "GOFLAGS=-mod=mod", "GOPROXY=off", "GOSUMDB=off", "GOTOOLCHAIN=local", "VERIF_REPLAY_MODEL="+string(mb))
+		out, err := cmd.CombinedOutput()
+		text := string(out)
+		if len(text) > 8000 {
+			text = text[len(text)-8000:]
+		}
+		failed := err != nil && strings.Contains(text, "--- FAIL")
+		// append to replay file
+		var doc map[string]interface{}
+		if b, e2 := os.ReadFile(replayPath); e2 == nil {
+			json.Unmarshal(b, &doc)
+		}
+		if doc == nil {
+			doc = map[string]interface{}{}
+		}
+		doc["replay_cmd"] = fmt.Sprintf("cd %s && go test -overlay <{%s -> %s}> -vet=off -count=1 -run '^%s$' ./%s/", repo, filepath.Join(e.Pkg, "zz_verif_replay_test.go"), filepath.Join(verif, "replay", e.Harness), e.Test, e.Pkg)
+		doc["replay_output"] = text
+		doc["replay_reproduced"] = failed
+		b, _ := json.MarshalIndent(doc, "", " ")
+		os.WriteFile(replayPath, b, 0o644)
+		if failed {
+			return true
+		}
+	}
 	return false
 }
